@@ -38,8 +38,8 @@ impl<'a> SimdBestFirstVisitor<u32, SimdAabb> for PointVisitor<'a> {
 pub fn exec(func: &str, a: &mut Args) -> String {
     if func.starts_with("composite2_") { return comp2::exec(func, a); }
     if func.starts_with("composite_") { return comp::exec(func, a); }
-    if func.starts_with("lane3_") || func.starts_with("nl3_") || func.starts_with("dv3_") || func.starts_with("tv3_") { return lanes3::exec(func, a); }
-    if func.starts_with("lane2_") || func.starts_with("nl2_") || func.starts_with("dv2_") || func.starts_with("tv2_") { return lanes2::exec(func, a); }
+    if func.starts_with("lane3_") || func.starts_with("nl3_") || func.starts_with("dv3_") || func.starts_with("tv3_") || func.starts_with("cp3_") { return lanes3::exec(func, a); }
+    if func.starts_with("lane2_") || func.starts_with("nl2_") || func.starts_with("dv2_") || func.starts_with("tv2_") || func.starts_with("cp2_") { return lanes2::exec(func, a); }
     if func.starts_with("hf2_") { return hf2::exec(func, a); }
     if func.starts_with("hf3_") { return hf3::exec(func, a); }
     match func {
@@ -85,6 +85,9 @@ pub fn gen(r: &mut Rng, thorough: bool) -> Vec<(String, String)> {
     v.extend(lanes3::gen_tv(r, thorough));
     v.extend(lanes2::gen_tv(r, thorough));
     v.extend(hf3::gen(r, thorough));
+    // the closest-points visitor has the same lane formula as the distance visitor: same argument families
+    v.extend(lanes3::gen_dv(r, thorough).into_iter().map(|(_, a)| ("cp3_visit".to_string(), a)));
+    v.extend(lanes2::gen_dv(r, thorough).into_iter().map(|(_, a)| ("cp2_visit".to_string(), a)));
     v
 }
 
@@ -1251,7 +1254,7 @@ pub mod lanes3 {
     use crate::p3::bounding_volume::{Aabb, SimdAabb};
     use crate::p3::math::{SimdBool, SimdReal};
     use crate::p3::query::{NonlinearRigidMotion, Ray, SimdRay, DefaultQueryDispatcher};
-    use crate::p3::query::details::{CompositeShapeAgainstAnyDistanceVisitor, TOICompositeShapeShapeBestFirstVisitor};
+    use crate::p3::query::details::{CompositeShapeAgainstAnyDistanceVisitor, CompositeShapeAgainstShapeClosestPointsVisitor, TOICompositeShapeShapeBestFirstVisitor};
     use crate::p3::query::ShapeCastOptions;
     use crate::p3::partitioning::{SimdBestFirstVisitStatus, SimdBestFirstVisitor};
     use crate::p3::shape::{Ball, Compound, SharedShape};
@@ -1286,6 +1289,17 @@ pub mod lanes3 {
                 let g1 = Compound::new(vec![(Isometry::identity(), SharedShape::new(Ball::new(0.5)))]);
                 let d = DefaultQueryDispatcher;
                 let mut vis = CompositeShapeAgainstAnyDistanceVisitor::new(&d, &pos12, &g1, &*g2);
+                match vis.visit(best, &bv, None) {
+                    SimdBestFirstVisitStatus::MaybeContinue { weights, mask, .. } =>
+                        format!("{} {}", (0..4).map(|i| ff(weights.extract(i))).collect::<Vec<_>>().join(" "), fmask(mask)),
+                    _ => "exit".into(),
+                } }
+            // the REAL CompositeShapeAgainstShapeClosestPointsVisitor: same lane formula as the distance visitor
+            "cp3_visit" => { let _aabb2 = aabb(a); let best = a.f(); let bv = simd(a); let pos12 = d3::iso(a); let s = super::super::c03::sh(a);
+                let g2 = super::super::c03::dynsh(&s);
+                let g1 = Compound::new(vec![(Isometry::identity(), SharedShape::new(Ball::new(0.5)))]);
+                let d = DefaultQueryDispatcher;
+                let mut vis = CompositeShapeAgainstShapeClosestPointsVisitor::new(&d, &pos12, &g1, &*g2, 1.0);
                 match vis.visit(best, &bv, None) {
                     SimdBestFirstVisitStatus::MaybeContinue { weights, mask, .. } =>
                         format!("{} {}", (0..4).map(|i| ff(weights.extract(i))).collect::<Vec<_>>().join(" "), fmask(mask)),
@@ -1411,7 +1425,7 @@ pub mod lanes2 {
     use crate::p2::bounding_volume::{Aabb, SimdAabb};
     use crate::p2::math::{SimdBool, SimdReal};
     use crate::p2::query::{NonlinearRigidMotion, Ray, SimdRay, DefaultQueryDispatcher};
-    use crate::p2::query::details::{CompositeShapeAgainstAnyDistanceVisitor, TOICompositeShapeShapeBestFirstVisitor};
+    use crate::p2::query::details::{CompositeShapeAgainstAnyDistanceVisitor, CompositeShapeAgainstShapeClosestPointsVisitor, TOICompositeShapeShapeBestFirstVisitor};
     use crate::p2::query::ShapeCastOptions;
     use crate::p2::partitioning::{SimdBestFirstVisitStatus, SimdBestFirstVisitor};
     use crate::p2::shape::{Ball, Compound, SharedShape};
@@ -1445,6 +1459,16 @@ pub mod lanes2 {
                 let g1 = Compound::new(vec![(Isometry::identity(), SharedShape::new(Ball::new(0.5)))]);
                 let d = DefaultQueryDispatcher;
                 let mut vis = CompositeShapeAgainstAnyDistanceVisitor::new(&d, &pos12, &g1, &*g2);
+                match vis.visit(best, &bv, None) {
+                    SimdBestFirstVisitStatus::MaybeContinue { weights, mask, .. } =>
+                        format!("{} {}", (0..4).map(|i| ff(weights.extract(i))).collect::<Vec<_>>().join(" "), fmask(mask)),
+                    _ => "exit".into(),
+                } }
+            "cp2_visit" => { let _aabb2 = aabb(a); let best = a.f(); let bv = simd(a); let pos12 = d2::iso(a); let s = super::comp2::sh(a);
+                let g2 = super::comp2::dynsh(&s);
+                let g1 = Compound::new(vec![(Isometry::identity(), SharedShape::new(Ball::new(0.5)))]);
+                let d = DefaultQueryDispatcher;
+                let mut vis = CompositeShapeAgainstShapeClosestPointsVisitor::new(&d, &pos12, &g1, &*g2, 1.0);
                 match vis.visit(best, &bv, None) {
                     SimdBestFirstVisitStatus::MaybeContinue { weights, mask, .. } =>
                         format!("{} {}", (0..4).map(|i| ff(weights.extract(i))).collect::<Vec<_>>().join(" "), fmask(mask)),
